@@ -4,6 +4,7 @@
 use serde_json::{json, Value};
 use std::panic;
 
+mod c12;
 mod c19;
 
 pub struct Outcome {
@@ -15,6 +16,7 @@ pub struct Outcome {
 fn rerun(w: &Value) -> Option<Outcome> {
     match w["driver"].as_str()? {
         "c19_span" => Some(c19::run_span(w["input"]["text"].as_str()?, w["input"]["start"].as_u64()? as usize, w["input"]["end"].as_u64()? as usize)),
+        "c12_header" => Some(c12::run_header(w["input"]["text"].as_str()?)),
         "c19_line" => Some(c19::run_line(w["input"]["text"].as_str()?, w["input"]["byte"].as_u64()? as usize)),
         _ => None,
     }
@@ -23,6 +25,7 @@ fn rerun(w: &Value) -> Option<Outcome> {
 fn search(unit: &str, tag: &str, tier: &str) -> Option<Value> {
     match unit {
         "c19_queries" => c19::search(tag, tier),
+        "c12_header" => c12::search(tag, tier),
         _ => None,
     }
 }
